@@ -118,12 +118,71 @@ let c08_chk_range t =
   let bs = tlist t c (fun t -> let a = tz t in let b = tz t in (a, b)) in
   "ok=" ^ sb (check_chunk_range s e bs)
 
+(* ---------- C02 ---------- *)
+(* case: book <U> <nops> { I <k> {<s> <e>}*k | P <v> <s> <e> <last> | R } *)
+let fmt_ranges rs = join "," (fun (a, b) -> sz a ^ "-" ^ sz b) rs
+let fmt_oz = function None -> "-" | Some z -> sz z
+let fmt_bv (b : bv) =
+  "n=" ^ fmt_ranges b.needed ^ " m=" ^ fmt_oz b.maxv ^ " p=" ^
+  join ";" (fun (v, p) -> sz v ^ ":" ^ sz p.p_last ^ ":" ^ fmt_ranges p.p_seqs) b.partials
+let fmt_adv = function
+  | None -> "-"
+  | Some a -> sz a.a_head ^ "|" ^ fmt_ranges a.a_need ^ "|" ^
+              join ";" (fun (v, rs) -> sz v ^ ":" ^ fmt_ranges rs) a.a_partial
+let parse_bops t =
+  let n = ti t in
+  tlist t n (fun t ->
+      match tok t with
+      | "I" -> let k = ti t in OpInsert (tlist t k (fun t -> let s = tz t in let e = tz t in (s, e)))
+      | "P" -> let v = tz t in let s = tz t in let e = tz t in let l = tz t in OpPartial (v, s, e, l)
+      | "R" -> OpReload
+      | x -> failwith ("bad op " ^ x))
+let fmt_bout = function
+  | OutOk -> "ok" | OutIdbErr -> "idberr" | OutBadDelete -> "baddelete"
+  | OutFailsafe -> "failsafe" | OutConflict -> "conflict"
+let c02_book t =
+  let u = ti t in
+  let ops = parse_bops t in
+  let res = bruns bstate_init ops in
+  join " # " (fun (st, out) ->
+      let b = st.st_bv in
+      let cv = String.concat "" (List.init u (fun i -> sb (contains_version b (z_of_small (i + 1))))) in
+      fmt_bout out ^ " " ^ fmt_bv b ^ " g=" ^ fmt_ranges st.st_rows ^
+      " s=" ^ join ";" (fun r -> sz r.sr_version ^ ":" ^ sz r.sr_start ^ "-" ^ sz r.sr_end ^ ":" ^ sz r.sr_last)
+        (seqrows_flat st.st_seq) ^
+      " d=" ^ fmt_oz st.st_dbmax ^ " adv=" ^ fmt_adv (sync_actor b) ^
+      " fc=[" ^ fmt_bv (reload st) ^ "] cv=" ^ cv) res
+
+(* oracle on ONE observed implementation state:
+   chk_bstate <U> <bad:0/1> N{a b} <max|-1> P{v last K{a b}} G{a b} <adv:0/1> [head N{a b} P{v K{a b}}] <fc:0/1> [N{a b} max P{..}]
+   where X{..} is a count followed by that many items *)
+let p_ranges t = let n = ti t in tlist t n (fun t -> let a = tz t in let b = tz t in (a, b))
+let p_omax t = let m = tok t in if m = "-1" then None else Some (z_of_string m)
+let p_partials t = let n = ti t in
+  tlist t n (fun t -> let v = tz t in let l = tz t in let rs = p_ranges t in (v, { p_seqs = rs; p_last = l }))
+let p_bv t = let n = p_ranges t in let m = p_omax t in let p = p_partials t in
+  { needed = n; partials = p; maxv = m }
+let c02_chk_state t =
+  let u = tz t in
+  let bad = ti t = 1 in
+  let b = p_bv t in
+  let g = p_ranges t in
+  let a = if ti t = 1 then begin
+      let h = tz t in let nd = p_ranges t in
+      let n = ti t in
+      let ps = tlist t n (fun t -> let v = tz t in let rs = p_ranges t in (v, rs)) in
+      Some { a_head = h; a_need = nd; a_partial = ps } end else None in
+  let fc = if ti t = 1 then Some (p_bv t) else None in
+  "ok=" ^ sb (not bad && state_ok b g a fc u)
+
 (* ---------- dispatch ---------- *)
 let handlers : (string * (toks -> string)) list ref = ref [
   "chunks", c08_chunks;
   "range", c08_range;
   "chk_chunks", c08_chk_chunks;
   "chk_range", c08_chk_range;
+  "book", c02_book;
+  "chk_bstate", c02_chk_state;
 ]
 
 let () =
